@@ -268,8 +268,25 @@ def ring_workout(chk, maxlen):
         if bad is not None:
             chk.violation("ring:fifo-order", "ring workout %s: sequence %r gave %r" % (it, bad[0], bad[1]),
                           "# (def c (ev/chan %s)) then ops %r\n" % (it, bad[0]))
-    chk.add(evaluations=total, transitions=total)
-    chk.part("ring-workout", sequences=total, maxlen=maxlen)
+    # the same workout with heap values that only the channel holds and a collection after every operation
+    hlen = min(maxlen, 9)
+    hitems = [jdn({Kw("cap"): cap, Kw("prefix"): prefix, Kw("len"): hlen, Kw("heap"): True}) for cap in (1, 2, 3, 4) for prefix in range(0, 5)]
+    htotal = 0
+    for it, (st, text) in zip(hitems, run_batch("asan", drv, hitems, chunk=1, timeout=300, max_deaths=4)):
+        if st == "SKIPPED":
+            chk.cap("ring workout with heap values: items not run after 4 dead workers")
+            continue
+        if st != "OK":
+            chk.violation("ring-gc:%s" % st.lower(), "ring workout with heap values and collections %s: %s %s" % (it, st, text[-600:]),
+                          "# run props/C06/driver_ring.janet with item %s\n" % it)
+            continue
+        v = canonparse.parse(text)
+        htotal += v[0]
+        if v[1] is not None:
+            chk.violation("ring-gc:value-changed", "ring workout with heap values %s: sequence %r gave %r (a queued value did not "
+                          "survive a collection)" % (it, v[1][0], v[1][1]), "# item %s of props/C06/driver_ring.janet\n" % it)
+    chk.add(evaluations=total + htotal, transitions=total + htotal)
+    chk.part("ring-workout", sequences=total, maxlen=maxlen, heap_sequences=htotal, heap_maxlen=hlen)
 
 
 def main():
